@@ -362,6 +362,33 @@ def run(ctx):
                     return 'external:names defined by the policy file'
         if isinstance(it, ast.Name):
             vals = rd.values(node, it.id)
+            if vals and all((isinstance(v, ast.List) and not v.elts) or (isinstance(v, ast.Call) and call_name(v) in ('list', 'set') and not v.args) for v in vals):
+                # a collection filled by a loop (a comprehension written out): classified by what is added to it
+                ks = set()
+                for n2 in g.nodes:
+                    for c2 in calls_at(n2):
+                        if isinstance(c2.func, ast.Attribute) and c2.func.attr in ('append', 'add') and isinstance(c2.func.value, ast.Name) and c2.func.value.id == it.id and len(c2.args) == 1:
+                            a2 = c2.args[0]
+                            if isinstance(a2, ast.Name):
+                                cls_ = set()
+                                for var, val, dn in rd.reaching(n2, a2.id):
+                                    if isinstance(val, tuple) and val[0] == 'iter':
+                                        cls_.add(iter_class(method, dn, val[1], depth + 1))
+                                    elif isinstance(val, tuple) and val[0] == 'unpack' and val[2] == 0 and isinstance(val[1], tuple) and val[1][0] == 'iter':
+                                        itx = val[1][1]
+                                        if isinstance(itx, ast.Call) and isinstance(itx.func, ast.Attribute) and itx.func.attr == 'items' and struct_of(itx.func.value) in ('policy_map', 'policy_cache'):
+                                            cls_.add('map-derived')
+                                        else:
+                                            cls_.add('unknown:iter %s' % short(itx))
+                                    else:
+                                        cls_.add('unknown:def')
+                                ks |= cls_ or {'unknown:def'}
+                            else:
+                                ks.add('unknown:adds %s' % short(a2))
+                        elif isinstance(c2.func, ast.Attribute) and c2.func.attr in ('extend', 'update', 'insert') and isinstance(c2.func.value, ast.Name) and c2.func.value.id == it.id:
+                            ks.add('unknown:%s' % c2.func.attr)
+                if ks:
+                    return next(iter(ks)) if len(ks) == 1 else 'unknown:%s' % sorted(ks)
             ks = set(iter_class(method, [d for d in rd.reaching(node, it.id)][i][2] or node, v, depth + 1) if isinstance(v, ast.AST) else 'unknown:%s' % (v,) for i, v in enumerate(vals))
             return next(iter(ks)) if len(ks) == 1 else 'unknown:%s' % sorted(ks)
         if isinstance(it, ast.BinOp) and isinstance(it.op, ast.Sub):
